@@ -61,8 +61,9 @@ def _key(rec, why, direction):
             "ifs": rec["ifs"]["v"] if rec["ifs"]["set"] else "<unset>", "vars": rec["k"], "inp": "|".join(rec["inp"])}
 
 
-def _validate(rep, trace, timeout, totals, what):
+def _validate(rep, trace, timeout, totals, what, stage=None):
     """Run Trace_ReadBuiltin over `trace` (in shards); report every rejected record."""
+    extra = {"stage": stage} if stage else {}
     with open(trace) as f:
         lines = f.readlines()
     n = len(lines)
@@ -91,9 +92,9 @@ def _validate(rep, trace, timeout, totals, what):
                 continue
             verdicts["reject"] = verdicts.get("reject", 0) + 1
             rec = json.loads(part[j["i"] - 1])
-            rep.violation(_key(rec, j["v"], "impl->spec"),
+            rep.violation(dict(_key(rec, j["v"], "impl->spec"), **extra),
                           f"{what}: {j['v']} not what ReadBuiltin.tla allows (class {j['class']}): {_command(rec)} "
-                          f"-> {json.dumps(rec['obs'])}", {"rec": rec, "why": j["v"], "dir": "impl->spec"})
+                          f"-> {json.dumps(rec['obs'])}", dict({"rec": rec, "why": j["v"], "dir": "impl->spec"}, **extra))
         verdicts["accepted:ok"] = verdicts.get("accepted:ok", 0) + nok
     vlib.log(f"[p4<-] {what}: {n} records judged by TLC in {wall:.1f}s: {verdicts}")
     return n, verdicts
@@ -220,6 +221,58 @@ def run(tier):
     return rc
 
 
+STAGES = {
+    # reduced slices run inside other checks: enumeration cfg per tier
+    "c14": {"quick": "Gen_ReadBuiltin_c14q.cfg", "thorough": "Gen_ReadBuiltin_c14t.cfg"},
+}
+
+
+def run_stage(tier, rep, budget="c14"):
+    """A reduced slice of G05 run as a stage of another check (C14: the bytes that `read`
+    takes from a PIPE arrive complete and in order however the writer's chunks and the
+    reader's requests interleave): TLC enumerates the family `pipe` of Gen_ReadBuiltin
+    (default delimiter; letters, space, newline and characters of two, three and four
+    bytes) with the fan raw x IFS x one / two variables; harness/g05 feeds every input
+    through a pipe written in chunks of 1, 2 and 3 bytes with the reader running dry in
+    between, and compares status, variables and the rest of descriptor 0 with what
+    ReadBuiltin.tla demands; a sample of the observations is judged by Trace_ReadBuiltin.
+    Violations go to `rep` (keys and replay objects carry "stage": "g05"); returns
+    coverage numbers."""
+    t0 = time.time()
+    cfg = STAGES[budget][tier]
+    timeout = TIERS[tier]["timeout"]
+    wd = vlib.workdir(PID + "-stage-" + budget)
+    vlib.build_harness(PKG)
+    totals = {"states": 0, "transitions": 0}
+    gen = os.path.join(wd, "gen.ndjson")
+    r = vlib.tlc("Gen_ReadBuiltin", cfg, workers=4, timeout=timeout, json_out=gen)
+    vlib.tlc_must_pass(r, f"enumeration {cfg}")
+    ngen = vlib.count_lines(gen)
+    if ngen != r.distinct or ngen == 0:
+        raise vlib.ToolError(f"enumeration printed {ngen} lines for {r.distinct} states")
+    totals["states"] += r.distinct
+    totals["transitions"] += r.generated
+    mism = os.path.join(wd, "mismatch.ndjson")
+    sample = os.path.join(wd, "sample.ndjson")
+    _, out, _ = vlib.run_harness(PKG, ["replay", "--in", gen, "--out", mism, "--sample", sample, "--threads", "4",
+                                       "--feeds", "pipe"], timeout=timeout)
+    st1 = _summary(out)
+    if st1["lines"] != ngen:
+        raise vlib.ToolError("harness did not replay every enumerated input")
+    for m in vlib.read_ndjson(mism):
+        rep.violation(dict(m["key"], stage="g05"), m["detail"], {"stage": "g05", "rec": m["rec"], "dir": "spec->impl"})
+    nsmp, vs = _validate(rep, sample, timeout, totals, "g05-stage sample of the replayed cases", stage="g05")
+    vlib.log(f"[g05-stage] {cfg}: {ngen} inputs enumerated by TLC ({r.wall:.1f}s), {st1['cases']} cases through a pipe "
+             f"(feeds {st1['by_feed']}, classes {st1['by_class']}), {st1['mismatches']} mismatches, "
+             f"{nsmp} sampled records judged by TLC, {time.time() - t0:.1f}s")
+    for p in (gen, mism, sample):
+        os.remove(p)
+    return {"config": cfg, "states": totals["states"], "transitions": totals["transitions"], "enumerated_inputs": ngen,
+            "cases_replayed": st1["cases"], "cases_by_feed": st1["by_feed"], "cases_by_class": st1["by_class"],
+            "nontrivial": st1["nontrivial"], "mismatches": st1["mismatches"],
+            "sampled_records_judged_by_TLC": nsmp, "sampled_verdicts": vs, "wall_s": round(time.time() - t0, 1)}
+
+
 def replay(path):
     with open(path) as f:
         obj = json.load(f)
@@ -238,7 +291,7 @@ def replay(path):
     bad = [j for j in r.json if j["v"] != "ok"]
     if bad:
         print(f"rejected: {bad[0]}")
-        print(f"VIOLATION property={PID} replay={path}")
+        print(f"VIOLATION property={obj.get('property', PID)} replay={path}")
         return 1
     print("accepted" + (f" ({r.json[0]})" if r.json else ""))
     return 0
